@@ -32,7 +32,7 @@ ASSUMPTIONS = ['(b) is a statement over inputs: the simulator contributes the by
                'a stray token or a blind truncation may leave a valid program: such texts are only required not to raise anything but ParserError from parse()']
 REAL = ['smartquery.* (lexer, PLY parser, evaluator, builtins, repl loop)']
 STUB = ['prompt_toolkit.PromptSession (scripted line source)', 'stdout (captured)']
-REACH_PROBES = ('premature_end', 'unbalanced_open', 'unbalanced_close', 'illegal_char', 'unterminated_string', 'reserved_word',
+REACH_PROBES = ('opener', 'premature_end', 'unbalanced_open', 'unbalanced_close', 'illegal_char', 'unterminated_string', 'reserved_word',
                 'undefined_variable', 'undefined_variable_compound', 'undefined_function', 'missing_key', 'index_out_of_range',
                 'pop_empty', 'compound_index_missing', 'size_cap', 'op_budget', 'unicode_soup', 'repl_session', 'inside_lambda',
                 'list_names_lexical')
@@ -61,9 +61,9 @@ def _runtime_fail(r):
         src = r.choice(['{f}(1)', '{f}()', '1 | {f}', '(1).{f}()', 'l.{f}(2)', 'l | {f}(2)', 'x = {f}(l)', '[{f}(1)]', 'map(l, v => {f}(v))',
                         '1 + {f}(2)', 'len({f}(1))', 'd["k"] = {f}()']).format(f=fn)
     elif k == 'missing_key':
-        src = r.choice(['d["zz"]', 'd[5]', 'd[None]', 'x = d["zz"]', 'd["a"]["zz"]', 'len(d["zz"])', 'map(l, v => d[v])', 'd[1.0]', '{}["a"]', '{"a": 1}["b"]'])
+        src = r.choice(['mp["zz"]', 'cm["zz"]', 'ud["zz"]', 'x = ud[5]', 'd["zz"]', 'd[5]', 'd[None]', 'x = d["zz"]', 'd["a"]["zz"]', 'len(d["zz"])', 'map(l, v => d[v])', 'd[1.0]', '{}["a"]', '{"a": 1}["b"]'])
     elif k == 'index_out_of_range':
-        src = r.choice(['l[9]', 'l[-9]', 'l[3]', 'x = l[99]', '[][0]', 's[99]', 'l[0][5]' if False else 'n[0][5]', 'map([7], v => l[v])', 'l[2.0 + 1]', '[1, 2][2]'])
+        src = r.choice(['tp[5]', 'tp[-3]', 'l[9]', 'l[-9]', 'l[3]', 'x = l[99]', '[][0]', 's[99]', 'l[0][5]' if False else 'n[0][5]', 'map([7], v => l[v])', 'l[2.0 + 1]', '[1, 2][2]'])
     elif k == 'pop_empty':
         src = r.choice(['pop(e)', 'e.pop()', 'e | pop', 'pop([])', 'pop(l, 99)', 'l.pop(5)', 'x = pop(e)', 'pop(l, -9)'])
     elif k == 'compound_index_missing':
@@ -115,17 +115,29 @@ def generate(seed, tier):
             ops.append({'op': ro.choice(['parse', 'eval', 'list_names']), 'kind': 'unicode_soup', 'src': _unicode_soup(rf)})
         else:
             ops.append({'op': 'eval', 'kind': 'ok', 'src': ro.choice(['1 + 1', 'x = [1, 2]; x', 'len("abc")', '', '# c'])})
-    return {'world': {'repl': repl, 'real_constructor': rc.random() < 0.1}, 'ops': ops}
+    # the same text submitted again (through parse or eval): a failure is a failure every time
+    for _ in range(rc.randint(0, 4)):
+        prev = ro.choice(ops)
+        if prev['kind'] != 'ok':
+            again = dict(prev)
+            if prev['op'] in ('parse', 'eval') and prev['kind'] not in LISTED_RUNTIME:
+                again['op'] = ro.choice(['parse', 'eval'])
+            ops.insert(ro.randrange(ops.index(prev) + 1, len(ops) + 1), again)
+    return {'world': {'repl': repl, 'real_constructor': rc.random() < 0.1, 'cache': {'kind': 'dict'} if rc.random() < 0.4 else None}, 'ops': ops}
 
 
-SURELY_INVALID = ('premature_end', 'unbalanced_open', 'unbalanced_close', 'illegal_char', 'unterminated_string', 'reserved_word')
+SURELY_INVALID = ('premature_end', 'unbalanced_open', 'unbalanced_close', 'illegal_char', 'unterminated_string', 'reserved_word', 'opener')
 LISTED_RUNTIME = ('undefined_variable', 'undefined_variable_compound', 'undefined_function', 'missing_key', 'index_out_of_range',
                   'pop_empty', 'compound_index_missing', 'size_cap', 'op_budget')
 LEXICAL = ('illegal_char', 'unterminated_string')
 
 
 def _names(with_big=False):
-    n = {'l': [1, 2, 3], 'd': {'a': {'b': 1}, 'k': 2}, 's': 'abc', 'x': 5, 'e': [], 'n': [[1, 2], [3]]}
+    import collections
+    import types
+    n = {'l': [1, 2, 3], 'd': {'a': {'b': 1}, 'k': 2}, 's': 'abc', 'x': 5, 'e': [], 'n': [[1, 2], [3]],
+         'mp': types.MappingProxyType({'a': 1}), 'cm': collections.ChainMap({'a': 1}, {'b': 2}), 'ud': collections.UserDict({'a': 1}),
+         'tp': (1, 2)}
     if with_big:
         n['big'] = list(range(10000))
         n['bigd'] = {str(i): i for i in range(10000)}
@@ -136,7 +148,8 @@ def execute(case, ctx):
     from smartquery.exceptions import ParserError, OpsExecutionLimitExceededError
     if case['world'].get('repl'):
         return _repl_session(case, ctx)
-    parser = boot.fresh_parser()
+    from ..seams import make_cache
+    parser = boot.fresh_parser(make_cache(case['world'].get('cache')))
     kinds_judged = set()
     for step, op in enumerate(case['ops']):
         ctx.step = step
